@@ -37,6 +37,14 @@ Theorem C16_refs_redirected : forall c d d',
   lcd c d = Ok d' -> regions_have_ids d -> refs_in_doc d -> refs_resolved d'.
 Proof. exact refs_resolved_thm. Qed.
 
+(* ... and redirected to the retained region: the body keeps its skeleton (kinds, ids, timing, text) and every region
+   reference is mapped by one function f of the region id; f leaves remaining regions alone and sends every region to a
+   remaining region whose timing the fingerprint deems equal (begin None = 0; end 0 = unbounded: finding lcd-region-end-zero) *)
+Theorem C16_redirected : forall c d d',
+  lcd c d = Ok d' -> regions_have_ids d -> NoDup (rids (d_regions d)) -> refs_in_doc d ->
+  exists f, body_mapped f d d' /\ alias_ok f d d'.
+Proof. exact redirected_thm. Qed.
+
 (* applying the filter twice equals applying it once (any safe area below 50; the configuration allows 0..30) *)
 Theorem C16_idempotent : forall c d d', lcd c d = Ok d' -> region_keys_unique d -> c_sa c < 50 -> lcd c d' = Ok d'.
 Proof. exact idem_thm. Qed.
@@ -98,6 +106,6 @@ Proof.
 Qed.
 
 Print Assumptions C16_no_anim.  Print Assumptions C16_safe_area.  Print Assumptions C16_whitelist_partial.
-Print Assumptions C16_merged.  Print Assumptions C16_refs_redirected.  Print Assumptions C16_idempotent.
+Print Assumptions C16_merged.  Print Assumptions C16_refs_redirected.  Print Assumptions C16_redirected.  Print Assumptions C16_idempotent.
 Print Assumptions C16_total_partial.  Print Assumptions C16_timeline_partial.  Print Assumptions C16_timeline_leaves_partial.
 Print Assumptions C16_example.
